@@ -97,35 +97,35 @@ func roundTrip(c *h.Ctx, p *path.Path, src string, docs []string, r *rand.Rand) 
 			if err != nil {
 				return nil, err
 			}
-			var q path.Path
-			return &q, q.UnmarshalText(b)
+			q := rtDest(s1, 0)
+			return q, q.UnmarshalText(b)
 		}},
 		{"marshal.binary", func() (*path.Path, error) {
 			b, err := p.MarshalBinary()
 			if err != nil {
 				return nil, err
 			}
-			var q path.Path
-			return &q, q.UnmarshalBinary(b)
+			q := rtDest(s1, 1)
+			return q, q.UnmarshalBinary(b)
 		}},
 		{"sql.value-scan", func() (*path.Path, error) {
 			v, err := p.Value()
 			if err != nil {
 				return nil, err
 			}
-			var q path.Path
+			q := rtDest(s1, 2)
 			if err := q.Scan(v); err != nil {
 				return nil, err
 			}
 			s, _ := v.(string)
-			var q2 path.Path
+			q2 := rtDest(s1, 3)
 			if err := q2.Scan([]byte(s)); err != nil {
 				return nil, err
 			}
 			if q2.AST == nil || q.AST == nil || q2.String() != q.String() {
 				return nil, fmt.Errorf("Scan(string) and Scan([]byte) disagree")
 			}
-			return &q, nil
+			return q, nil
 		}},
 	}
 	for _, rt := range routes {
@@ -176,6 +176,18 @@ func roundTrip(c *h.Ctx, p *path.Path, src string, docs []string, r *rand.Rand) 
 		}
 		c.Held("behaviour")
 	}
+}
+
+// rtDest is the destination a marshal / Scan route decodes into: a zero Path
+// or, every other time, a Path that already holds another parsed path (a
+// reused struct field, the previous row of a scan loop) - nothing of which
+// may survive.
+func rtDest(s string, salt int) *path.Path {
+	if (len(s)+salt)%2 == 0 {
+		return new(path.Path)
+	}
+	q := *path.MustParse(`strict $.old ? (@.path > 1 || "text" starts with "t")`)
+	return &q
 }
 
 func typedSummary(o *h.Out) string {
